@@ -317,5 +317,41 @@ class HistoryReplay(NativeCase):
         self.assumptions = ("bounded: %d (block, history) pairs, histories of up to %d other blocks, 2 option sets" % (n, len(pool) - 1),)
 
 
+class ParserPositionIndependence(NativeCase):
+    """bounded, function level: what build_blocks_from_asm_representation makes of a block's items does not depend on the items in
+    front of it.  For every item sequence of length <= N over {PUSHLIB a, PUSHLIB b, PUSHLIB c, tag, JUMP, ADD, PUSH 0} each returned
+    block is compared with the block obtained from its own items alone: same instruction names, operands and library values (the number
+    the optimizer sees for a PUSHLIB is an index into a per-block table - seed C12-6 lets the table of a block that starts at a tag
+    continue the one of the block before)"""
+    prop = 'C12'
+    name = "parser-blocks-independent-of-preceding-items(bounded)"
+
+    def run_native(self, tier):
+        import itertools
+        import sfs_generator.parser_asm as parser_asm
+        self.functions = (parser_asm.build_blocks_from_asm_representation, parser_asm.build_asm_bytecode)
+        vocab = [dict(name="PUSHLIB", value="liba"), dict(name="PUSHLIB", value="libb"), dict(name="PUSHLIB", value="libc"),
+                 dict(name="tag", value="1"), dict(name="JUMP"), dict(name="ADD"), dict(name="PUSH", value="0")]
+        N = 4 if tier == 'quick' else 5
+        view = lambda b: [(i.disasm, i.value, getattr(i, 'real_value', None)) for i in b.instructions]
+        n = 0
+        for L in range(1, N + 1):
+            for seq in itertools.product(range(len(vocab)), repeat=L):
+                items = [dict(vocab[k], begin=0, end=1, source=0) for k in seq]
+                blocks = parser_asm.build_blocks_from_asm_representation("c", "c", [dict(d) for d in items], False)
+                pos = 0
+                ok, why = True, None
+                for b in blocks:
+                    own = items[pos:pos + len(b.instructions)]
+                    pos += len(b.instructions)
+                    alone = parser_asm.build_blocks_from_asm_representation("c", "c", [dict(d) for d in own], False)
+                    if len(alone) != 1 or view(alone[0]) != view(b):
+                        ok, why = False, dict(in_context=view(b), alone=[view(a) for a in alone])
+                        break
+                n += 1
+                self.ob('each block = the block its own items give alone', ok and pos == len(items), inputs=dict(items=[(d['name'], d.get('value')) for d in items]), info=why)
+        self.assumptions = ("bounded: %d item sequences (length <= %d over 7 items)" % (n, N),)
+
+
 def cases(tier='quick'):
-    return [FrameAnalysis(), HistoryReplay()], {}
+    return [FrameAnalysis(), HistoryReplay(), ParserPositionIndependence()], {}
